@@ -438,9 +438,16 @@ func TestExtensionOrdering(t *testing.T) {
 		checkOrder(t, w, history)
 
 		invocations := rapid.IntRange(1, 5).Draw(t, "invocations")
+		busy := rapid.IntRange(0, 7).Draw(t, "chatty-function") == 0 // dozens of datapoints per invocation: hundreds over the sandbox's life
+		if busy {
+			invocations = rapid.IntRange(3, 6).Draw(t, "chatty-invocations")
+		}
 		for inv := 1; inv <= invocations; inv++ {
 			w.nextCh <- "INVOKE"
 			nd := rapid.IntRange(0, 4).Draw(t, "datapoints")
+			if busy {
+				nd = rapid.IntRange(20, 45).Draw(t, "chatty-datapoints")
+			}
 			for i := 0; i < nd; i++ {
 				inject(t, w, ingestPort)
 			}
